@@ -74,6 +74,14 @@ def base_cases():
         dict(name="big-file", expr=".key0007 = 1", content=big, mode=0o444),
         dict(name="mode-755", expr="del(.b)", content=b"#!x\na: 1\nb: 2\n", mode=0o755),
         dict(name="empty-file", expr=".a = 1", content=b"", mode=0o644),
+        # the path given to -i is a link; unusual permission bits (the mode seen AT THE PATH must survive)
+        dict(name="symlink-640", expr=".port = 8080", content=b"user: admin\nport: 1\n", mode=0o640, link="symlink"),
+        dict(name="symlink-eval-error", expr='.a = error("x")', content=b"a: 1\n", mode=0o600, link="symlink"),
+        dict(name="hardlink-600", expr=".a = 2", content=b"a: 1\n", mode=0o600, link="hardlink"),
+        dict(name="mode-setuid-4755", expr=".a = 2", content=b"a: 1\n", mode=0o4755),
+        dict(name="mode-setgid-2750", expr=".a = 2", content=b"a: 1\n", mode=0o2750),
+        dict(name="mode-sticky-1644", expr=".a = 2", content=b"a: 1\n", mode=0o1644),
+        dict(name="mode-000", expr=".a = 2", content=b"a: 1\n", mode=0o000),
     ]
 
 
@@ -142,9 +150,19 @@ class Sandbox:
         self.dir = tempfile.mkdtemp(prefix="r_", dir=root)
         self.tmpdir = tempfile.mkdtemp(prefix="t_", dir=shmroot if cross else self.dir)
         self.target = os.path.join(self.dir, "target" + case.get("ext", ".yml"))
-        with open(self.target, "wb") as f:
+        self.real = self.target
+        link = case.get("link")
+        if link:
+            # the edited path is a symbolic / hard link to the file that holds the content and the mode
+            os.mkdir(os.path.join(self.dir, "real"))
+            self.real = os.path.join(self.dir, "real", "data" + case.get("ext", ".yml"))
+        with open(self.real, "wb") as f:
             f.write(case["content"] if content is None else content)
-        os.chmod(self.target, case["mode"])
+        os.chmod(self.real, case["mode"])
+        if link == "symlink":
+            os.symlink(os.path.join("real", os.path.basename(self.real)), self.target)
+        elif link == "hardlink":
+            os.link(self.real, self.target)
         self.more = []
         for nm, data in case.get("more", []):
             p = os.path.join(self.dir, nm)
@@ -571,7 +589,8 @@ def run(chk):
         rule="exhaustive over the fault space: every verif hook point (15; print points for every arrival) x {fail, kill} x "
              "{temp dir on the same device, on another device (/dev/shm)} plus the fault-free run, for %d (expression, content, mode, flags) "
              "cases (succeeding, failing expression, invalid YAML at document 1 / 2, syntax error, -e, encoder error, multi-document, "
-             "eval-all with two files, JSON, front matter process/extract, init error, panic, empty result, file larger than the write buffer) "
+             "eval-all with two files, JSON, front matter process/extract, init error, panic, empty result, file larger than the write buffer, "
+             "target given through a symbolic link / a hard link, setuid / setgid / sticky / 000 modes) "
              "and seeded random ones; plus strace syscall error injection (rename, chown, chmod, fsync, unlink) for the O-steps; plus REAL write failures of the "
              "temp file (RLIMIT_FSIZE at 0, mid, last byte, result boundaries, 4096, 8192: failing on the last and on a non-last result, below and above the bufio size) "
              "with the oracle failed write => non-zero exit, message on stderr, target unchanged. "
